@@ -37,12 +37,13 @@ type opRes struct {
 	after   [nContracts]snap
 	pendB   map[string]string
 	pendA   map[string]string
-	owner   string  // owner the contract had before the op
-	caller  string  // resolved caller
-	decodes bool    // input decodes as {"fields": map[string]string}
-	entries []entry // decoded request (JSON order for built inputs, sorted for raw inputs)
-	validB  bool    // the contract's validation predicate held before the op
-	validA  error   // ... and its verdict after the op
+	owner   string            // owner the contract had before the op
+	caller  string            // resolved caller
+	decodes bool              // input decodes as {"fields": map[string]string}
+	entries []entry           // decoded request (JSON order for built inputs, sorted for raw inputs)
+	validB  bool              // the contract's validation predicate held before the op
+	validA  error             // ... and its verdict after the op
+	rawGlob map[string]string // globals: the stored fields after the op, as stored
 }
 
 func buildInput(o op) []byte {
@@ -135,6 +136,12 @@ func execOp(k int, ctx *cstate.StateContext, o op, seq int) opRes {
 	r.after = snapAll(ctx)
 	r.pendA = pendingOf(ctx)
 	r.validA = validateStored(k, ctx)
+	if k == kGlobals {
+		gs := &minersc.GlobalSettings{Fields: map[string]string{}}
+		if err := ctx.GetTrieNode(minersc.GLOBALS_KEY, gs); err == nil {
+			r.rawGlob = gs.Fields
+		}
+	}
 	return r
 }
 
@@ -284,6 +291,20 @@ func judge(h hist, o op, r opRes, count func(string)) []viol {
 			add("wrong-value-stored", "globals version %s -> %s", r.before[k]["#version"], r.after[k]["#version"])
 		}
 		delete(changed, "#version")
+		// what was accepted must be what every node reads back (no fallback to the local yaml)
+		for _, e := range r.entries {
+			sp, ok := specs[k][e.K]
+			if !ok || !sp.mutable {
+				continue
+			}
+			if d := readBackDiffers(r.rawGlob, e.K, sp.kind); strings.HasPrefix(d, "panic: ") {
+				add("accepted-global-panics-on-read-back", "%s = %q was accepted and stored; chain.ConfigImpl.Update panics on it: %s", e.K, r.rawGlob[e.K], d)
+				break
+			} else if d != "" {
+				add("accepted-global-not-read-back", "%s = %q was accepted and stored, but chain.ConfigImpl.Update cannot parse it with the type of its getter and falls back to the local yaml: %s", e.K, r.rawGlob[e.K], d)
+				break
+			}
+		}
 	}
 	if !toConf {
 		if len(changed) > 0 {
@@ -644,6 +665,9 @@ func main() {
 		re := 2
 		if strings.HasPrefix(p.Probe, "alias") {
 			re = 24
+		}
+		if strings.HasPrefix(p.Probe, "global-") {
+			re = 1
 		}
 		handle(p, re)
 	}
